@@ -17,7 +17,8 @@ func init() {
 			"D3 decoding is additive and block-local — inside the sketch decoder and every store decoder, every write to sketch/store state is an accumulation (x += e, Add/AddWithCount, append to the buffer, page[i] += c) or lives in the paginated store's representation routines; the only plain assignment (the mapping) is guarded by nil-or-Equals (C08-D3); the block loop carries no state from one block to the next (no φ at its header). This is the structural reason why decoding into a non-empty sketch is a merge and why concatenated encodings decode to the merge of the parts. "+
 			"D4 encoding only appends — every store to the caller's buffer in the encoding primitives and in every Encode method is `*b = append(*b, …)`; EncodeFloat64LE writes only into the 8 bytes it has just appended; the receiver's observable write set is empty (C14-D1 obligation re-evaluated for every Encode). "+
 			"D5 omitIndexMapping: true → no mapping block, false → exactly one. "+
-			"SHARED (obligations of other properties that decide clauses this property states too, re-evaluated here under their home rule ids): C19-D1 binary part (the embedded mapping block is written from the gamma and offset fields and read back into the same kind). "+
+			"D6 decoding constructors — DecodeDDSketch and its exact-statistics sibling build a sketch with the caller's mapping argument (the 'supplied by the caller' form), two separate stores from the caller's provider and no weight, decode the caller's bytes into exactly that sketch and return it with the decoder's error. "+
+			"SHARED (obligations of other properties that decide clauses this property states too, re-evaluated here under their home rule ids): C14-D5 for every function with Encode or Decode in its name (no package-level state between calls). C19-D1 binary part (the embedded mapping block is written from the gamma and offset fields and read back into the same kind). C19-D2/D3 (Equals of the mappings — a stream that embeds the receiver's own mapping must be accepted, so Equals must hold for a mapping and itself: symmetric tolerance table over absolute values). "+
 			"NOT DECIDED: bit-exact equality of weights after the round trip, which layout is chosen for given data, clamping into bounded target stores.",
 		"one obligation per writer block / reader arm / delta site / state write in a decoder / buffer store in an encoder",
 		false, runC06)
@@ -35,6 +36,11 @@ func runC06(c *Ctx) {
 	c06Additive(c, a)
 	c06AppendOnly(c, a)
 	c06Omit(c, a)
+	c06DecoderCtors(c, a, "C06-D6")
+	// encoders and decoders keep nothing in package-level variables between calls
+	c.shared(func() { c14NoPackageState(c, "C14-D5") }, keyMentions("Encode", "Decode"))
+	// a stream whose embedded mapping equals the receiver's must be accepted: Equals holds for a mapping and itself
+	c.shared(func() { c19Equals(c, mappingInfos(c, "C06")) }, func(o *Obligation) bool { return true })
 	// the embedded mapping round-trips: each kind writes its flag, gamma, offset and the reader arm of that flag rebuilds the same kind
 	c.shared(func() { c19Binary(c, mappingInfos(c, "C06")) }, func(o *Obligation) bool { return true })
 	// decoding into a store that caches "buffer is sorted": the cache is maintained on the decode paths too
@@ -667,4 +673,103 @@ func c06Omit(c *Ctx, a *sketchAnchors) {
 		}
 	}
 	c.R.check(bad == "" && nT > 0 && nF > 0, rule, shortFn(f)+"/omit-table", shortFn(f), c.fpos(f), "true → no mapping block; false → exactly one", firstNonEmpty(bad, fmt.Sprintf("%d omitting / %d embedding path(s)", nT, nF)))
+}
+
+// c06DecoderCtors (D6): the decoding constructors build the sketch the stream is merged into — with the caller's
+// mapping (this is the "mapping omitted and supplied by the caller" form: a constructor that drops its mapping
+// argument can decode only streams that embed one), two separate stores from the caller's provider, no weight —
+// then decode the caller's bytes into exactly that sketch and return it with the decoder's error.
+func c06DecoderCtors(c *Ctx, a *sketchAnchors, rule string) {
+	n := 0
+	for _, name := range []string{"DecodeDDSketch", "DecodeDDSketchWithExactSummaryStatistics"} {
+		f := c.P.Func(pkgSketch, name)
+		if f == nil {
+			continue // an API that does not exist is not this rule's business
+		}
+		n++
+		// parameters by type: the bytes, the provider, the mapping
+		bytesP, provP, mapP := -1, -1, -1
+		for i, p := range f.Params {
+			switch ts := p.Type().String(); {
+			case ts == "[]byte":
+				bytesP = i
+			case strings.HasSuffix(ts, "store.Provider"):
+				provP = i
+			case strings.HasSuffix(ts, "mapping.IndexMapping"):
+				mapP = i
+			}
+		}
+		if bytesP < 0 || provP < 0 || mapP < 0 {
+			c.R.undecided(rule, name+"/parameters", shortFn(f), c.fpos(f), "a []byte, a store.Provider and a mapping.IndexMapping parameter", fmt.Sprintf("bytes=%d provider=%d mapping=%d", bytesP, provP, mapP))
+			continue
+		}
+		paths, _ := exec(c, f, nil, 1)
+		bad := ""
+		if len(paths) == 0 {
+			bad = "no path"
+		}
+		for _, p := range paths {
+			if len(p.RetT) != 2 {
+				bad = "does not return (sketch, error)"
+				continue
+			}
+			outer := p.RetT[0]
+			fieldsOf := func(obj *Term) map[string]*Term {
+				out := map[string]*Term{}
+				for _, e := range p.Effects {
+					if e.Kind == "store" && e.Addr.Op == "field" && len(e.Addr.Args) == 1 && sameVal(e.Addr.Args[0], obj) {
+						out[e.Addr.Sym] = e.Val
+					}
+				}
+				return out
+			}
+			inner := outer
+			exact := strings.HasSuffix(name, "ExactSummaryStatistics")
+			if exact {
+				of := fieldsOf(outer)
+				inner = of[a.innerFld]
+				if inner == nil {
+					bad = "the result's inner sketch is not set"
+					continue
+				}
+				if st := of[a.statField]; st == nil || !(st.Op == "call" && strings.HasSuffix(st.Sym, "NewSummaryStatistics") || st.Op == "alloc") {
+					bad = "the result's statistics are not a fresh object"
+				}
+			}
+			var m, pos, neg, z *Term
+			if inner.Op == "call" && strings.HasSuffix(inner.Sym, ".NewDDSketch") && len(inner.Args) == 3 {
+				m, pos, neg = inner.Args[0], inner.Args[1], inner.Args[2]
+			} else {
+				fl := fieldsOf(inner)
+				m, pos, neg, z = fl[a.mapField], fl[a.posField], fl[a.negField], fl[a.zeroField]
+			}
+			fromProvider := func(t *Term) bool {
+				return t != nil && t.Op == "dyncall" && len(t.Args) >= 1 && t.Args[0].isParam(provP)
+			}
+			switch {
+			case m == nil || !stripConv(m).isParam(mapP):
+				bad = fmt.Sprintf("the mapping of the sketch decoded into is %v, not the caller's mapping argument", m)
+			case !fromProvider(pos) || !fromProvider(neg):
+				bad = fmt.Sprintf("stores are not made by the caller's provider: positive=%v negative=%v", pos, neg)
+			case sameVal(pos, neg):
+				bad = "both sides use the same store"
+			case z != nil && !z.isConst("0"):
+				bad = "initial zero weight is " + z.Key()
+			}
+			// decode the caller's bytes into exactly that sketch; its error is the one returned
+			var dec *Term
+			for _, e := range p.Calls() {
+				if isMethodCall(e.Call, "DecodeAndMergeWith") && len(e.Call.Args) == 2 && sameVal(e.Call.Args[0], outer) && e.Call.Args[1].isParam(bytesP) {
+					dec = e.Call
+				}
+			}
+			if dec == nil {
+				bad = firstNonEmpty(bad, "the caller's bytes are not decoded into the returned sketch")
+			} else if !sameVal(p.RetT[1], dec) {
+				bad = firstNonEmpty(bad, "the decoder's error is not the one returned: "+p.RetT[1].Key())
+			}
+		}
+		c.R.check(bad == "", rule, name+"/decodes-into-the-callers-parts", shortFn(f), c.fpos(f), "a sketch with the caller's mapping, two stores from the caller's provider and no weight; the bytes decoded into it; (sketch, decoder's error) returned", firstNonEmpty(bad, fmt.Sprintf("%d path(s)", len(paths))))
+	}
+	c.R.floor(rule, "decoding constructors", n, 2)
 }
